@@ -234,7 +234,9 @@ def run_impl(c):
     from rig.routing_table import remove_default_routes as rdm, ordered_covering as ocm, minimise as mm
     T, t, t2 = c["table"], c["target"], c["target2"]
     out = {}
-    out["rd"] = call(lambda: {"ok": from_impl(rdm.minimise(to_impl(T), t))})
+    light = c.get("light")
+    if not light:
+        out["rd"] = call(lambda: {"ok": from_impl(rdm.minimise(to_impl(T), t))})
     out["rd_none"] = call(lambda: {"ok": from_impl(rdm.minimise(to_impl(T), None))})
     if c["kind"] == "any":
         return out
@@ -242,6 +244,11 @@ def run_impl(c):
     def oc(table, target, aliases, no_raise):
         r = ocm.ordered_covering(to_impl(table), target, aliases_to_impl(aliases), no_raise)
         return {"ok": {"table": from_impl(r[0]), "aliases": canon_aliases(r[1])}}
+    if light:
+        out["oc_none"] = call(lambda: oc(T, None, [], False))
+        out["ocmin_none"] = call(lambda: {"ok": from_impl(ocm.minimise(to_impl(T), None))})
+        out["mt_default"] = call(lambda: {"ok": from_impl(mm.minimise_table(to_impl(T), t2))})
+        return out
     out["oc"] = call(lambda: oc(T, t, [], False))
     out["oc_nr"] = call(lambda: oc(T, t2, [], True))
     if "ok" in out["oc_nr"]:
@@ -252,7 +259,7 @@ def run_impl(c):
     out["ocmin_none"] = call(lambda: {"ok": from_impl(ocm.minimise(to_impl(T), None))})
     out["mt"] = call(lambda: {"ok": from_impl(mm.minimise_table(to_impl(T), t, impl_methods(c["methods"])))})
     out["mt_default"] = call(lambda: {"ok": from_impl(mm.minimise_table(to_impl(T), t2))})
-    if c["internals"]:
+    if c.get("internals"):
         out["best"] = call(lambda: {"ok": merge_json(ocm._get_best_merge(
             sorted(to_impl(T), key=lambda e: ocm._get_generality(e.key, e.mask)), {}))})
         srt = sorted(to_impl(T), key=lambda e: ocm._get_generality(e.key, e.mask))
@@ -269,9 +276,16 @@ def model_reqs(c, impl):
     """requests for the model mirroring run_impl; list of (name, request)"""
     T, t, t2 = c["table"], c["target"], c["target2"]
     S = "c04"
-    reqs = [("rd", {"suite": S, "op": "rd", "table": T, "target": t, "check": True}),
-            ("rd_none", {"suite": S, "op": "rd", "table": T, "target": None, "check": True})]
+    light = c.get("light")
+    reqs = [("rd_none", {"suite": S, "op": "rd", "table": T, "target": None, "check": True})]
+    if not light:
+        reqs.append(("rd", {"suite": S, "op": "rd", "table": T, "target": t, "check": True}))
     if c["kind"] == "any":
+        return reqs
+    if light:
+        reqs.append(("oc_none", {"suite": S, "op": "oc", "table": T, "target": None, "aliases": [], "no_raise": False}))
+        reqs.append(("ocmin_none", {"suite": S, "op": "ocmin", "table": T, "target": None}))
+        reqs.append(("mt_default", {"suite": S, "op": "mt", "table": T, "target": t2, "methods": ["rd", "oc"]}))
         return reqs
     reqs.append(("oc", {"suite": S, "op": "oc", "table": T, "target": t, "aliases": [], "no_raise": False}))
     reqs.append(("oc_nr", {"suite": S, "op": "oc", "table": T, "target": t2, "aliases": [], "no_raise": True}))
@@ -284,7 +298,7 @@ def model_reqs(c, impl):
     reqs.append(("ocmin_none", {"suite": S, "op": "ocmin", "table": T, "target": None}))
     reqs.append(("mt", {"suite": S, "op": "mt", "table": T, "target": t, "methods": c["methods"]}))
     reqs.append(("mt_default", {"suite": S, "op": "mt", "table": T, "target": t2, "methods": ["rd", "oc"]}))
-    if c["internals"]:
+    if c.get("internals"):
         srt = sorted(T, key=lambda e: generality(e[1], e[2]))
         reqs.append(("best", {"suite": S, "op": "best", "table": srt, "aliases": []}))
         for g in range(0, 34):
@@ -305,6 +319,10 @@ def out_table(res):
 
 
 def eval_cases(ctx, cases):
+    mts = [c for c in cases if c["kind"] == "mts"]
+    if mts:
+        eval_mts(ctx, mts)
+    cases = [c for c in cases if c["kind"] != "mts"]
     impls = [run_impl(c) for c in cases]
     reqs, idx = [], []
     for ci, (c, impl) in enumerate(zip(cases, impls)):
@@ -398,11 +416,188 @@ def judge(ctx, c, impl, model, orc):
     ctx.case({"table": T, "target": c["target"]}, nontriv)
 
 
+# --------------------------------------------------------------------------
+# minimise_tables (many chips)
+def gen_mts(rng):
+    chips = []
+    for i in range(rng.randint(1, 4)):
+        _, table = gen_table(rng, None, max_n=12)
+        chips.append({"chip": i, "table": table, "target": gen_target(rng, len(table))})
+    mode = rng.choice(["dict", "dict", "int", "none"])
+    if mode == "int":
+        t = rng.randint(0, 1 + max(len(ch["table"]) for ch in chips))
+        for ch in chips:
+            ch["target"] = t
+    elif mode == "none":
+        for ch in chips:
+            ch["target"] = None
+    return {"kind": "mts", "chips": chips, "mode": mode, "methods": rng.choice(METHOD_LISTS)}
+
+
+def eval_mts(ctx, cases):
+    from rig.routing_table import minimise as mm
+    impls = []
+    for c in cases:
+        tables = {(ch["chip"], 0): to_impl(ch["table"]) for ch in c["chips"]}
+        if c["mode"] == "dict":
+            lengths = {(ch["chip"], 0): ch["target"] for ch in c["chips"]}
+        else:
+            lengths = c["chips"][0]["target"]
+        impls.append(call(lambda: {"ok": [[k[0], from_impl(v)] for k, v in
+                                          mm.minimise_tables(tables, lengths, impl_methods(c["methods"])).items()]}))
+    reqs, idx = [], []
+    for ci, (c, impl) in enumerate(zip(cases, impls)):
+        reqs.append({"suite": "c04", "op": "mts", "methods": c["methods"], "chips": c["chips"]})
+        idx.append((ci, "m", None))
+        if "ok" in impl:
+            got = dict((k, v) for k, v in impl["ok"])
+            for ch in c["chips"]:
+                reqs.append({"suite": "c04", "op": "equiv", "a": ch["table"], "b": got.get(ch["chip"], [])})
+                idx.append((ci, "o", ch["chip"]))
+    models, orcs = {}, {}
+    for (ci, what, chip), r in zip(idx, ctx.lean(reqs)):
+        if what == "m":
+            models[ci] = r
+        else:
+            orcs[(ci, chip)] = r
+    for ci, (c, impl) in enumerate(zip(cases, impls)):
+        ctx.traces += 1
+        ctx.tag("kind_mts")
+        if models[ci] != impl:
+            ctx.mismatch("c04.mts", "impl=%r model=%r" % (impl, models[ci]), c)
+        if "exc" in impl:
+            ctx.violation("undocumented-exception-" + impl["exc"], "minimise_tables raised %s at %s" % (impl["exc"], impl.get("where")), c)
+        elif "err" in impl:
+            ctx.tag("mts_minfailed")
+            ch = [x for x in c["chips"] if x["chip"] == impl.get("chip")]
+            if not ch or ch[0]["target"] is None or impl["final"] <= ch[0]["target"] or impl["target"] != ch[0]["target"]:
+                ctx.violation("minfailed-misreport", "minimise_tables raised %r" % (impl,), c)
+        else:
+            ctx.tag("mts_ok")
+            got = dict((k, v) for k, v in impl["ok"])
+            for x in c["chips"]:
+                o = orcs[(ci, x["chip"])]
+                tb = got.get(x["chip"], [])
+                if not o.get("equiv", False):
+                    ctx.violation("route-changed", "minimise_tables chip %d: key %#010x is routed differently (%d -> %d entries)"
+                                  % (x["chip"], o.get("key", 0), len(x["table"]), len(tb)), c)
+                if len(tb) > len(x["table"]):
+                    ctx.violation("longer", "minimise_tables chip %d: %d -> %d entries" % (x["chip"], len(x["table"]), len(tb)), c)
+                if x["target"] is not None and len(tb) > x["target"]:
+                    ctx.violation("target-missed", "minimise_tables chip %d: %d entries for target %d" % (x["chip"], len(tb), x["target"]), c)
+        ctx.case({"mts": [[x["table"], x["target"]] for x in c["chips"]]}, "ok" in impl and any(
+            len(dict((k, v) for k, v in impl["ok"]).get(x["chip"], [])) < len(x["table"]) for x in c["chips"]))
+
+
+# --------------------------------------------------------------------------
+# exhaustive small scope (thorough tier)
+def exhaustive_cases(nbits, max_len):
+    """every Good table of <= max_len entries over `nbits` key bits with two entry flavours:
+    (route E from W: default-routable) and (route N, source unknown)"""
+    import itertools
+    pats = []
+    for code in itertools.product("01X", repeat=nbits):
+        key = mask = 0
+        for b, ch in enumerate(code):
+            if ch != "X":
+                mask |= 1 << b
+                if ch == "1":
+                    key |= 1 << b
+        pats.append((key, mask))
+    kinds = [[1, k, m, 1 << 3] for k, m in pats] + [[1 << 2, k, m, 1 << NONE_BIT] for k, m in pats]
+    for ln in range(0, max_len + 1):
+        for tb in itertools.product(kinds, repeat=ln):
+            gens = [generality(e[1], e[2]) for e in tb]
+            srt = all(gens[i] <= gens[i + 1] for i in range(ln - 1))
+            orth = all(not km_intersect((tb[i][1], tb[i][2]), (tb[j][1], tb[j][2]))
+                       for i in range(ln) for j in range(i + 1, ln))
+            if srt or orth:
+                yield {"kind": "sorted" if srt else "orth", "table": [list(e) for e in tb], "target": None,
+                       "target2": None, "methods": ["rd", "oc"], "light": True}
+
+
+# --------------------------------------------------------------------------
+# shrinking
+class _Probe(object):
+    """collects the findings of one re-evaluation"""
+
+    def __init__(self, ctx):
+        self.ctx = ctx
+        self.concrete, self.mismatches, self.traces = [], [], 0
+
+    def lean(self, reqs):
+        return self.ctx.lean(reqs)
+
+    def violation(self, key, what, case):
+        self.concrete.append((key, what, case))
+
+    def mismatch(self, *a):
+        self.mismatches.append(a)
+
+    def tag(self, *a):
+        pass
+
+    def case(self, *a, **k):
+        pass
+
+
+def shrink(ctx, key, what, case):
+    """greedy: drop entries (keeps sortedness / orthogonality) while finding `key` persists"""
+    if "table" not in case:
+        return what, case
+    best, best_what = dict(case), what
+    budget = 60
+
+    def still(c):
+        pr = _Probe(ctx)
+        try:
+            eval_cases(pr, [c])
+        except Exception:
+            return None
+        for k, w, _ in pr.concrete:
+            if k == key:
+                return w
+        return None
+    step = max(1, len(best["table"]) // 2)
+    while step >= 1 and budget > 0:
+        i, progressed = 0, False
+        while i < len(best["table"]) and budget > 0:
+            cand = dict(best)
+            cand["table"] = best["table"][:i] + best["table"][i + step:]
+            budget -= 1
+            w = still(cand)
+            if w:
+                best, best_what, progressed = cand, w, True
+            else:
+                i += step
+        if step == 1 and not progressed:
+            break
+        step = step // 2 if step > 1 else (1 if progressed else 0)
+    return best_what, best
+
+
+def shrink_findings(ctx):
+    seen, front = set(), []
+    for key, what, case in list(ctx.concrete):
+        if key in seen:
+            continue
+        seen.add(key)
+        try:
+            w, c = shrink(ctx, key, what, case)
+            front.append((key, w, c))
+        except Exception:
+            pass
+    ctx.concrete[:0] = front
+
+
 def run(ctx):
     ctx.extra["rule"] = RULE
-    ctx.assumptions += ["keys and masks are 32-bit unsigned values",
+    ctx.assumptions += ["keys and masks are 32-bit unsigned values; every entry lists at least one source ({None} = unknown) "
+                        "when ordered covering is followed by default-route removal",
                         "ordered covering / the method chain are claimed for tables that are orthogonal or sorted by "
                         "generality (the documented precondition); default-route removal for any table",
+                        "minimise_table is called with at least one minimiser (with methods=() and len(table) == target "
+                        "the front end reports failure although the table fits: _identity uses '<')",
                         "CPython: sorted() is stable, dict/set membership semantics"]
     n = ctx.scale(2000, 50000)
     if ctx.extended:
@@ -411,9 +606,32 @@ def run(ctx):
     cases = [{"kind": "sorted", "table": [], "target": None, "target2": None, "methods": ["rd", "oc"], "internals": True},
              {"kind": "sorted", "table": [], "target": 0, "target2": 0, "methods": ["rd", "oc"], "internals": False}]
     for i in range(n):
-        cases.append(gen_case(rng, "any" if rng.random() < 0.1 else None))
+        r = rng.random()
+        if r < 0.08:
+            cases.append(gen_case(rng, "any"))
+        elif r < 0.14:
+            cases.append(gen_mts(rng))
+        else:
+            cases.append(gen_case(rng))
     for i in range(0, len(cases), 500):
         eval_cases(ctx, cases[i:i + 500])
+    if not ctx.quick:
+        batch = []
+        for c in exhaustive_cases(2, 4):
+            batch.append(c)
+            if len(batch) == 2000:
+                eval_cases(ctx, batch)
+                batch = []
+        for c in exhaustive_cases(3, 2):
+            batch.append(c)
+            if len(batch) == 2000:
+                eval_cases(ctx, batch)
+                batch = []
+        eval_cases(ctx, batch)
+        ctx.tag("exhaustive_2bits_le4_3bits_le2")
+        ctx.extra["exhaustive_scope"] = ("every orthogonal-or-sorted table of <= 4 entries over 2 key bits and of <= 2 entries "
+                                         "over 3 key bits, two entry flavours (default-routable E<-W; N with unknown source)")
+    shrink_findings(ctx)
 
 
 def replay(ctx, payload):
